@@ -1,12 +1,19 @@
 #!/usr/bin/env python3
 """Re-runs the quick checks recorded in each seeded/<id>/meta.json against its patch (via
-try_patch.sh, which patches /repo's working tree and restores it) and rewrites the results.
+tools/try_wt.sh in a scratch worktree of /repo) and rewrites the results.
 Also re-runs the author's own sensitivity patches (seeded/own/*.diff against the check named by
 the file's prefix). usage: reverify_seeded.py [id ...]   (default: all)"""
 import json, glob, os, subprocess, sys
 only = set(sys.argv[1:])
+WT = '/tmp/wt/reverify'
 def run(patch, checks):
-    out = subprocess.run(['/verif/try_patch.sh', patch] + checks, capture_output=True, text=True).stdout
+    # a scratch worktree of /repo with the patch applied; the harness is built against it
+    # (tools/try_wt.sh), so /repo's own working tree is never touched
+    if not os.path.isdir(WT):
+        subprocess.run(['git', '-C', '/repo', 'worktree', 'add', '--detach', WT, 'HEAD'], capture_output=True, check=True)
+    subprocess.run(['git', '-C', WT, 'checkout', '--', '.'], check=True)
+    subprocess.run(['git', '-C', WT, 'apply', patch], check=True)
+    out = subprocess.run(['/verif/tools/try_wt.sh', WT] + checks, capture_output=True, text=True).stdout
     results, cur = {}, None
     for line in out.splitlines():
         if line[:1] == 'C' and ' exit=' in line:
@@ -36,3 +43,5 @@ if not only or 'own' in only:
         line = f"{name}: exit={r.get('exit')} {r.get('first_violation', r.get('line', ''))[:260]}"
         print(line, flush=True); log.append(line)
     open('/verif/seeded/own/results_quick_tier.log', 'w').write('\n'.join(log) + '\n')
+if os.path.isdir(WT):
+    subprocess.run(['git', '-C', '/repo', 'worktree', 'remove', '--force', WT])
